@@ -5,6 +5,7 @@ mod doc;
 mod form;
 mod gen;
 mod hdr;
+mod lang;
 mod meta;
 mod qml;
 mod translate;
@@ -38,6 +39,12 @@ fn main() {
             let file = args.get(2).cloned().unwrap_or_else(|| usage());
             let code = checks::replay_file(std::path::Path::new(&file), &known, true);
             std::process::exit(code)
+        }
+        Some("sexp") => {
+            let file = args.get(2).cloned().unwrap_or_else(|| usage());
+            let src = std::fs::read_to_string(&file).expect("read file");
+            let doc = qmluic::qmldoc::UiDocument::parse(src, "T", None);
+            println!("{}", doc.root_node().to_sexp());
         }
         Some("translate") => {
             let file = args.get(2).cloned().unwrap_or_else(|| usage());
